@@ -31,6 +31,7 @@ import Fcgi.Props.C08
 import Fcgi.Props.C08Inv
 import Fcgi.Props.C08Replies
 import Fcgi.Props.C08Replies2
+import Fcgi.Props.C08Replies3
 import Fcgi.Props.C09
 import Fcgi.Props.C09E2E
 import Fcgi.Props.C10
@@ -74,6 +75,7 @@ import Fcgi.Props.C19
 import Fcgi.Props.C20
 import Fcgi.Props.C12Unbounded
 import Fcgi.Props.C14Unbounded
+import Fcgi.Props.C06Unbounded
 
 /-!
 # Headline — one checked statement per property
@@ -97,9 +99,9 @@ review found missing were added; the 'not proved' lists follow the review's '(3)
 Cross-cutting scope of the end-to-end clauses (C07, C09, C11, C12, C14): `Ben t` = a transport without
 error answers (arbitrary read/write splitting, transient Pendings) — faults are C12; `NoiseFits` =
 management GetValues bodies whose undecodable tail fits the buffer; the CANONICAL handler families
-only (named per clause); single request unless a clause says otherwise.  The end-to-end conjuncts of C07, C11, C12 and C14 are the
-`_unbounded` versions (`Props/C07Unbounded.lean`, `Props/E2EUnbounded.lean`, `Props/C12Unbounded.lean`,
-`Props/C14Unbounded.lean`): no bound on the wire length or the buffer size; what is left of the model-fuel
+only (named per clause); single request unless a clause says otherwise.  The end-to-end conjuncts of C06, C07, C11, C12 and C14 are the
+`_unbounded` versions (`Props/C06Unbounded.lean`, `Props/C07Unbounded.lean`, `Props/E2EUnbounded.lean`,
+`Props/C12Unbounded.lean`, `Props/C14Unbounded.lean`): no bound on the wire length or the buffer size; what is left of the model-fuel
 hypothesis `hhf` bounds only the length of the handler's own output (`wcost |data| + c ≤ 1000`), except the
 Filter-abort rows (a)/(b) inside `filter_abort_table_full_unbounded`, which keep `|Stdin wire| ≤ 31000`.
 
@@ -1241,9 +1243,10 @@ end Fcgi.Headline
    returns
 5. `C06.aligned_spec` — the effective buffer: ≥ configured, ≥ 24, multiple of 8
 6. `C06.sufficiency_tight` — tightness: the fit condition is also necessary
-7. `C06E.stuck_preamble_e2e` — end to end: a unit that does not fit — the task returns, no handler, the
-   replies owed so far
-8. `C06E.fatal_preamble_e2e` — end to end: a fatal preamble — RET, no handler, exactly the reference output
+7. `C06E.stuck_preamble_e2e_unbounded` — end to end: a unit that does not fit — the task returns, no
+   handler, the replies owed so far
+8. `C06E.fatal_preamble_e2e_unbounded` — end to end: a fatal preamble — RET, no handler, exactly the
+   reference output
 9. `C06E.read_has_space` — `parse_request` never offers the transport an empty buffer
 
 **Modelling assumptions (obligations.json).**
@@ -1370,19 +1373,19 @@ end
 section
 namespace Fcgi.C06E
 open Fcgi Fcgi.Req Fcgi.Str Fcgi.Async Fcgi.Run Fcgi.Spec Fcgi.E2E Fcgi.C07E Fcgi.C06 Fcgi.VarInt
-/-- end to end: a unit that does not fit — the task returns, no handler, the replies owed so far  (= `Fcgi.C06E.stuck_preamble_e2e`, `Props/C06E2E.lean`) -/
+/-- end to end: a unit that does not fit — the task returns, no handler, the replies owed so far  (= `Fcgi.C06E.stuck_preamble_e2e_unbounded`, `Props/C06Unbounded.lean`) -/
 def C06Clause7 : Prop :=
   ∀ {Wk W O : Bytes} (b mc : Nat) (scripts : List (List HOp × Bool)) (t : Transport)
     (fuel : Nat) (K : SCtx (alignedBufsize b) mc Wk W O)
     (hin : t.input = W) (hb : Ben t)
-    (hfuel : t.rd.length + t.wr.length + 1 ≤ fuel) (hlen : 2 * t.input.length + 6 ≤ 100000),
+    (hfuel : t.rd.length + t.wr.length + 1 ≤ fuel),
     ∃ c', runTask fuel (connS b mc t scripts) 0 none = (c', "RET") ∧ c'.phase = .finished ∧
       hsCount c'.env.tr.events = hsCount t.events ∧ c'.scripts = scripts ∧
       c'.env.tr.wlog = t.wlog ++ O
 
 theorem C06Clause7_holds : C06Clause7 := by
   unfold C06Clause7
-  exact @stuck_preamble_e2e
+  exact @stuck_preamble_e2e_unbounded
 
 end Fcgi.C06E
 end
@@ -1390,13 +1393,13 @@ end
 section
 namespace Fcgi.C06E
 open Fcgi Fcgi.Req Fcgi.Str Fcgi.Async Fcgi.Run Fcgi.Spec Fcgi.E2E Fcgi.C07E Fcgi.C06 Fcgi.VarInt
-/-- end to end: a fatal preamble — RET, no handler, exactly the reference output  (= `Fcgi.C06E.fatal_preamble_e2e`, `Props/C06E2E.lean`) -/
+/-- end to end: a fatal preamble — RET, no handler, exactly the reference output  (= `Fcgi.C06E.fatal_preamble_e2e_unbounded`, `Props/C06Unbounded.lean`) -/
 def C06Clause8 : Prop :=
   ∀ {Wf Z : Bytes} {e : PErr} (b mc : Nat) (scripts : List (List HOp × Bool))
     (t : Transport) (fuel : Nat)
     (hfat : (run .header Wf mc).st = .fatal e) (hsmall : Wf.length < alignedBufsize b)
     (hin : t.input = Wf ++ Z) (hb : Ben t)
-    (hfuel : t.rd.length + t.wr.length + 1 ≤ fuel) (hlen : 2 * t.input.length + 5 ≤ 100000),
+    (hfuel : t.rd.length + t.wr.length + 1 ≤ fuel),
     ∃ c', runTask fuel (connS b mc t scripts) 0 none = (c', "RET") ∧ c'.phase = .finished ∧
       hsCount c'.env.tr.events = hsCount t.events ∧ c'.scripts = scripts ∧
       c'.env.tr.wlog = t.wlog ++ (run .header Wf mc).out ∧
@@ -1404,7 +1407,7 @@ def C06Clause8 : Prop :=
 
 theorem C06Clause8_holds : C06Clause8 := by
   unfold C06Clause8
-  exact @fatal_preamble_e2e
+  exact @fatal_preamble_e2e_unbounded
 
 end Fcgi.C06E
 end
